@@ -628,6 +628,13 @@ func httpStoreReplay(task engine.SeqTask) (res engine.SeqResult) {
 		if i == len(task.Hist)-1 {
 			o.last = op.String()
 		}
+		if op.K == "badbatch" || op.K == "badtxn" {
+			if err := h.ApplyRefused(op); err != nil {
+				res.HarnessEr = err.Error()
+				return
+			}
+			continue
+		}
 		if err := h.ApplyWrite(op); err != nil {
 			o.fail("C01:write-rejected", "valid write rejected: "+err.Error())
 		}
